@@ -148,6 +148,10 @@ type profile struct {
 	prices     []wStr
 	taxEdge    bool   // prefer edge values of the tax
 	dtTable    []wInt // endblock dt: 1ns, 1s, 5s; 0 stands for "arbitration+complaint"
+
+	// SPEC.md §4 (zero in the profiles that predate it, which draw exactly as before)
+	queryPct    int  // share of `query` ops among the ops, in percent
+	genesisTail bool // end the history with [prep] export validate jsonrt reimport
 }
 
 var dtNormal = []wInt{{1, 2}, {nsPerSec, 3}, {5 * nsPerSec, 4}, {0, 2}}
@@ -213,6 +217,25 @@ var profiles = map[string]*profile{
 		},
 		advPct: 20, repPct: 70, promoPct: 10, modulesPct: 100, modsvcPct: 20, prices: pricesNormal, dtTable: dtNormal,
 	},
+}
+
+// The two profiles of SPEC.md §4 are `mixed` histories with queries mixed in, resp.
+// with more withdraw addresses and the genesis tail.
+func init() {
+	mixed := profiles["mixed"]
+
+	queries := *mixed
+	queries.name, queries.queryPct = "queries", 30
+	profiles["queries"] = &queries
+
+	genesis := *mixed
+	genesis.name, genesis.genesisTail = "genesis", true
+	genesis.weights = map[string]int{}
+	for k, w := range mixed.weights {
+		genesis.weights[k] = w
+	}
+	genesis.weights["setwd"] = 6
+	profiles["genesis"] = &genesis
 }
 
 func profileNames() []string {
@@ -354,6 +377,8 @@ type gen struct {
 	seenReqs []seenReq
 	seenCtxs [][]byte
 	seenSet  map[string]bool
+
+	pending []string // op lines to emit before drawing again (the twin of a query)
 }
 
 func (g *gen) rememberReq(id, prov []byte) {
@@ -416,7 +441,11 @@ func (d *draft) set(k, v string) *draft { d.f[k] = v; return d }
 
 func (d *draft) line() string {
 	parts := []string{d.name}
-	for _, k := range opFields[d.name] {
+	fields, ok := fieldsOf(d.name, d.f["kind"])
+	if !ok {
+		panic(fmt.Sprintf("generator bug: op %s kind %q has no grammar", d.name, d.f["kind"]))
+	}
+	for _, k := range fields {
 		v, ok := d.f[k]
 		if !ok || v == "" {
 			panic(fmt.Sprintf("generator bug: op %s lacks field %s", d.name, k))
@@ -1336,6 +1365,197 @@ func (g *gen) opEndBlock(adv bool) (*draft, bool) {
 }
 
 // ---------------------------------------------------------------------------
+// 4b. queries (SPEC.md §4.1): every kind, through both interfaces, with arguments
+// drawn from what exists in the current state and from what does not.
+
+// service names for queries: the universe (where `a` is a prefix of `a-b` and
+// `a_b`), proper prefixes and extensions of its names, unknown and reserved names
+var queryNames = []string{"a", "a-b", "a_b", "svc", "sv", "a-", "ab", "svcs", "nosvc", reservedSvc}
+
+func (g *gen) qName() string {
+	if len(g.v.defs) > 0 && g.pct(50) {
+		return g.v.defs[g.r.Intn(len(g.v.defs))] // includes the 70-letter name when defined
+	}
+	return queryNames[g.r.Intn(len(queryNames))]
+}
+
+// qProvider: a provider of the universe (bound or not, of any length), the module
+// service provider, a stranger, an extension of a provider, or the empty address.
+func (g *gen) qProvider() string {
+	switch n := g.r.Intn(100); {
+	case n < 80:
+		return hx(g.oneOf(providerAddrs))
+	case n < 86:
+		return hx(modSvcProvider)
+	case n < 92:
+		return hx(strangerAddr)
+	case n < 97:
+		return hx(append(append([]byte{}, providerAddrs[3]...), 0x00))
+	}
+	return "-"
+}
+
+// qBinding: an existing binding in most cases, else any name with any provider.
+func (g *gen) qBinding() (svc, prov string) {
+	if len(g.v.bindings) > 0 && g.pct(65) {
+		b := g.v.bindings[g.r.Intn(len(g.v.bindings))]
+		if g.pct(85) {
+			return b.ServiceName, hx(b.Provider)
+		}
+		return g.qName(), hx(b.Provider) // a bound provider under another name
+	}
+	return g.qName(), g.qProvider()
+}
+
+func (g *gen) qOwner() string {
+	switch n := g.r.Intn(100); {
+	case n < 70:
+		return hx(g.oneOf(ownerAddrs))
+	case n < 85:
+		return hx(g.oneOf(consumerAddrs))
+	case n < 95:
+		return hx(strangerAddr)
+	}
+	return hx(repeatByte(0x01, 19)) // not 20 bytes long
+}
+
+// qCtx: a live context, one seen earlier (possibly removed since), an unknown id,
+// or an id of the wrong length.
+func (g *gen) qCtx() (id string, rc *types.RequestContext) {
+	switch n := g.r.Intn(100); {
+	case n < 55 && len(g.v.ctxs) > 0:
+		c := g.v.ctxs[g.r.Intn(len(g.v.ctxs))]
+		return hx(c.id), &c.rc
+	case n < 75 && len(g.seenCtxs) > 0:
+		return hx(g.seenCtxs[g.r.Intn(len(g.seenCtxs))]), nil
+	case n < 90:
+		return hx(g.randBytes(types.ContextIDLen)), nil
+	case n < 95:
+		return hx(g.randBytes([]int{1, 32, 39, 41}[g.r.Intn(4)])), nil
+	case len(g.v.ctxs) > 0: // a prefix of a live id
+		c := g.v.ctxs[g.r.Intn(len(g.v.ctxs))]
+		return hx(c.id[:32]), nil
+	}
+	return "-", nil
+}
+
+// qBatch: the current batch of the context, its neighbours, 0, and a far one.
+func (g *gen) qBatch(rc *types.RequestContext) string {
+	cur := uint64(1)
+	if rc != nil {
+		cur = rc.BatchCounter
+	}
+	switch n := g.r.Intn(100); {
+	case n < 55:
+		return fmt.Sprint(cur)
+	case n < 70 && cur > 0:
+		return fmt.Sprint(cur - 1)
+	case n < 85:
+		return fmt.Sprint(cur + 1)
+	case n < 93:
+		return "0"
+	}
+	return "18446744073709551615"
+}
+
+// qReq: a stored request (responded or not), one seen earlier, an unknown id, or
+// an id of the wrong length (a context id among them).
+func (g *gen) qReq(wantResponded bool) string {
+	var pool []reqEntry
+	for _, r := range g.v.reqs {
+		if !wantResponded || r.responded {
+			pool = append(pool, r)
+		}
+	}
+	switch n := g.r.Intn(100); {
+	case n < 50 && len(pool) > 0:
+		return hx(pool[g.r.Intn(len(pool))].id)
+	case n < 60 && len(g.v.reqs) > 0:
+		return hx(g.v.reqs[g.r.Intn(len(g.v.reqs))].id)
+	case n < 78 && len(g.seenReqs) > 0:
+		return hx(g.seenReqs[g.r.Intn(len(g.seenReqs))].id)
+	case n < 90:
+		return hx(g.randBytes(types.RequestIDLen))
+	case n < 95 && len(g.v.ctxs) > 0:
+		return hx(g.v.ctxs[g.r.Intn(len(g.v.ctxs))].id)
+	case n < 98:
+		return hx(g.randBytes([]int{1, 40, 57, 59}[g.r.Intn(4)]))
+	}
+	return "-"
+}
+
+// queryDraft draws a query of the given kind (via is set by the caller).
+func (g *gen) queryDraft(kind string) *draft {
+	d := newDraft("query", "kind", kind)
+	switch kind {
+	case "definition":
+		d.set("name", g.qName())
+	case "binding":
+		svc, prov := g.qBinding()
+		d.set("svc", svc).set("prov", prov)
+	case "bindings":
+		d.set("svc", g.qName()).set("owner", "-")
+		if g.pct(55) {
+			d.set("owner", g.qOwner())
+			if len(g.v.bindings) > 0 && g.pct(60) { // an owner who has a binding of this service
+				b := g.v.bindings[g.r.Intn(len(g.v.bindings))]
+				d.set("svc", b.ServiceName).set("owner", hx(b.Owner))
+			}
+		}
+	case "withdraw":
+		d.set("owner", g.qOwner())
+	case "context":
+		id, _ := g.qCtx()
+		d.set("ctx", id)
+	case "request":
+		d.set("req", g.qReq(false))
+	case "requests":
+		var active []reqEntry
+		for _, r := range g.v.reqs {
+			if r.active {
+				active = append(active, r)
+			}
+		}
+		if len(active) > 0 && g.pct(60) { // a binding with pending requests
+			r := active[g.r.Intn(len(active))]
+			svc := ""
+			for _, c := range g.v.ctxs {
+				if string(c.id) == string(r.r.RequestContextId) {
+					svc = c.rc.ServiceName
+				}
+			}
+			if svc != "" {
+				return d.set("svc", svc).set("prov", hx(r.r.Provider))
+			}
+		}
+		svc, prov := g.qBinding()
+		d.set("svc", svc).set("prov", prov)
+	case "requests_by_ctx", "responses":
+		id, rc := g.qCtx()
+		d.set("ctx", id).set("batch", g.qBatch(rc))
+	case "response":
+		d.set("req", g.qReq(true))
+	case "fees":
+		d.set("prov", g.qProvider())
+	case "params":
+	}
+	return d
+}
+
+// opQuery draws one query; in most cases the same query through the other
+// interface follows at once, on the same state.
+func (g *gen) opQuery() string {
+	d := g.queryDraft(queryKinds[g.r.Intn(len(queryKinds))])
+	vias := []string{"grpc", "legacy"}
+	first := g.r.Intn(2)
+	line := d.set("via", vias[first]).line()
+	if g.pct(70) {
+		g.pending = append(g.pending, d.set("via", vias[1-first]).line())
+	}
+	return line
+}
+
+// ---------------------------------------------------------------------------
 // 5. driver and statistics
 
 // histStats counts ops by name × result class, and effect lines by op × kind.
@@ -1458,7 +1678,15 @@ func (g *gen) genesisLine() string {
 
 // nextOp draws one op line from the current state.
 func (g *gen) nextOp() string {
+	if len(g.pending) > 0 {
+		line := g.pending[0]
+		g.pending = g.pending[1:]
+		return line
+	}
 	g.refreshView()
+	if g.prof.queryPct > 0 && g.pct(g.prof.queryPct) {
+		return g.opQuery()
+	}
 	var kinds []opKind
 	total := 0
 	for _, k := range opKinds {
@@ -1556,6 +1784,30 @@ func generateHistory(seed int64, index int, prof *profile, nOps int, path string
 			return nil, err
 		}
 	}
-	hs.Stopped = g.sim.Stopped
+	if prof.genesisTail && !g.sim.Stopped {
+		for _, line := range g.genesisTail() {
+			if err := step(line); err != nil {
+				return nil, err
+			}
+		}
+	}
+	hs.Stopped = g.sim.Stopped && !g.sim.Reimported
 	return hs, nil
+}
+
+// genesisTail is the end of a `genesis` history: in most histories one more
+// withdraw address, then (in half of them) prep, and export validate jsonrt
+// reimport. Without prep, validate is expected to fail unless every context
+// happens to be paused with a completed batch.
+func (g *gen) genesisTail() []string {
+	var tail []string
+	if g.pct(80) {
+		g.refreshView()
+		d, _ := g.opSetWD(false)
+		tail = append(tail, d.line())
+	}
+	if g.pct(50) {
+		tail = append(tail, "prep")
+	}
+	return append(tail, "export", "validate", "jsonrt", "reimport")
 }
